@@ -36,7 +36,10 @@ use crate::actor::get_panic_string;
 use crate::actor::messages::StopMessage;
 use crate::actor::ActorLifecycleGuard;
 use crate::actor::ActorLoopResult;
+#[cfg(not(feature = "verif_hooks"))]
 use crate::concurrency as mpsc;
+#[cfg(feature = "verif_hooks")]
+use crate::verif::chan as mpsc;
 use crate::concurrency::JoinHandle;
 use crate::concurrency::OneshotReceiver;
 use crate::message::Message;
